@@ -56,7 +56,19 @@ RULE = ('programs from a typed grammar over the public API in four dialects (lit
         'Non-trivial: the program has a numeric promotion (an inserted to<Type> conversion or a / on '
         'integers), a keyed table/matrix operation (key_by, group_by, join, key_rows_by, key_cols_by), a nested struct '
         'update (InsertFields inside InsertFields, or an override of an existing field), or a container / unifier whose '
-        'members are expressions of at least two numeric types; distinct by canonical program.')
+        'members are expressions of at least two numeric types, or a fold / scan whose accumulator the front end had to widen; '
+        'distinct by canonical program. '
+        'Widening folds (op wfold, in every dialect\'s op lists and alone as the outputs of the fold shards: closed, over row '
+        'fields, over entry fields): hl.fold / collection.fold / hl.array_scan / array.scan over an array or set (fresh hail '
+        'constants, a Python list, a pool expression) with a zero (hail constant, Python int, pool expression) that is by '
+        'construction NARROWER than the body result - int32 with int64/float32/float64 elements or constants, int64 with '
+        'floats, float32 with float64 - bare or as the first member of a struct / tuple accumulator; bodies acc+x, x+acc, acc*x, '
+        'x alone, acc+wider constant, if_else(x > acc, acc + x, acc), max, coalesce, or a generated sub-program over (acc, x). '
+        'The front end re-binds the accumulator at the widened type and runs the lambda again (class wfold_lambda_run_twice); '
+        'oracle as for every program: the binder type of the accumulator is the inferred type of the emitted zero, every Ref to '
+        'it must be annotated with that type (signature ref-annotation:accumulator), the body must have it too (ill-typed-ir:'
+        'StreamFold/StreamScan) and expr.dtype must equal it. A refusal by the front end is counted (wfold_refused_by_frontend_*), '
+        'not judged. StreamFold2 is not emitted by the Python front end.')
 ASSUMPTIONS = [
     'engine typing rules are transcribed by hand from the Scala sources for exactly the generated node set; node kinds '
     'and Apply functions without a rule are counted as outside_grammar',
@@ -306,6 +318,7 @@ class Inferencer:
     def __init__(self):
         self.nodes = []      # pre-order: (kind, type, depth, detail)
         self.refs = []       # pre-order: (name, type)
+        self.accumulators = set()    # names bound as StreamFold / StreamScan accumulators (their type is the zero's)
 
     def infer(self, n, env, depth=0):
         slot = len(self.nodes)
@@ -343,7 +356,10 @@ class Inferencer:
         if k in ('StreamMap', 'StreamFilter', 'StreamFlatMap', 'ArraySort', 'StreamAgg', 'StreamAggScan', 'AggExplode'):
             return _elt(ct[0], k)
         if k in ('StreamFold', 'StreamScan'):
-            return ct[1] if name == str(h[0]) else _elt(ct[0], k)
+            if name == str(h[0]):
+                self.accumulators.add(name)
+                return ct[1]
+            return _elt(ct[0], k)
         if k == 'StreamZip':
             return _elt(ct[[str(x) for x in h[2]].index(name)], k)
         if k in irtools.TABLE_KINDS or k == 'TableAggregate':
@@ -788,8 +804,11 @@ def analyse(pyir, env, v: Verdict, what):
     for a, (name, it) in zip(pr, inf.refs):
         pt = a._typ if a._typ is not None else a._type
         if pt is not None and tdesc(pt) != it:
-            v.fail(f'ref-annotation:{name if name in ("row", "global", "va", "sa", "g") else "local"}', CL_REF,
-                   f'{what}: (Ref {name}) is annotated {show(tdesc(pt))} but its binder has {show(it)} | IR: {text[:600]}')
+            role = name if name in ("row", "global", "va", "sa", "g") else "accumulator" if name in inf.accumulators else "local"
+            v.fail(f'ref-annotation:{role}', CL_REF,
+                   f'{what}: (Ref {name}) is annotated {show(tdesc(pt))} but its binder '
+                   f'{"(the zero of the enclosing StreamFold/StreamScan) " if role == "accumulator" else ""}has {show(it)} | '
+                   f'IR: {text[:600]}')
             break
     return t
 
@@ -977,7 +996,129 @@ class ExprBuilder(c35.ApiBuilder):
             return self.mix(op, pool)
         if k == 'uni':
             return self.uni(op, pool)
+        if k == 'wfold':
+            return self.wfold(op, pool, depth)
         return super().apply(op, pool, depth)
+
+    # ---- folds / scans whose body is numerically WIDER than the zero value
+    def wfold(self, op, pool, depth):
+        """['wfold', api, zero type, element type, zero source, collection source, body kind, accumulator shape, body program, aux]
+        hl.fold / collection.fold / hl.array_scan / array.scan over an array or set, with a zero of a NARROWER numeric type than
+        what the body returns (int32 zero with int64 / float32 / float64 elements or constants, int64 with floats, float32 with
+        float64), as a bare scalar or as the first member of a struct / tuple accumulator.  The front end handles this by
+        re-binding the accumulator at the widened type and running the lambda a second time: the binder (the zero it emits),
+        every Ref to the accumulator and the body then have to agree."""
+        hl = self.hl
+        _, api, zt, et, zsrc, csrc, bkind, shape, spec, aux = op
+        aux = int(aux)
+        ctor = {'i32': hl.int32, 'i64': hl.int64, 'f32': hl.float32, 'f64': hl.float64}
+        typ = {'i32': hl.tint32, 'i64': hl.tint64, 'f32': hl.tfloat32, 'f64': hl.tfloat64}
+        # collection
+        scan = api in ('hl.array_scan', 'arr.scan')
+        coll = None
+        if csrc == 'pool':
+            c = [e for e in pool if isinstance(e.dtype, (hl.tarray,) if scan else (hl.tarray, hl.tset))
+                 and _tcode(hl, e.dtype.element_type) in WIDTH]
+            if c:
+                coll = c[-1 - (aux % len(c))]
+                et = _tcode(hl, coll.dtype.element_type)
+        if coll is None:
+            vals = [(aux + 3 * j) % 7 - 2 for j in range(aux % 3 + 1)]
+            if csrc == 'pylist' and et in ('i32', 'f64'):
+                coll = [v if et == 'i32' else v + 0.5 for v in vals]             # a Python list: to_expr imputes its type
+            elif csrc == 'fresh_set' and not scan:
+                coll = hl.set([ctor[et](v) for v in vals])
+            else:
+                coll = hl.array([ctor[et](v) for v in vals])
+        # zero: strictly narrower than what the body returns, by construction
+        if WIDTH[zt] >= WIDTH['f64']:
+            zt = 'f32'
+        wide = [c for c in WIDTH if WIDTH[c] > max(WIDTH[zt], WIDTH[et])] or ['f64']
+        need_const = WIDTH[et] <= WIDTH[zt]
+        if need_const and bkind in ('acc+x', 'x+acc', 'acc*x', 'x', 'if', 'max', 'coalesce'):
+            bkind = 'acc+wide'
+        wt = wide[aux % len(wide)]
+        z0 = None
+        if zsrc == 'pool':
+            c = [e for e in pool if e.dtype == typ[zt]]
+            if c:
+                z0 = c[-1 - (aux % len(c))]
+        if z0 is None:
+            z0 = (aux % 3) if (zsrc == 'py' and zt == 'i32') else ctor[zt](aux % 3)
+        one = 1 if zsrc == 'py' else hl.int32(1)
+        if shape == 'struct':
+            zero = hl.struct(s=z0, n=hl.int32(0))
+        elif shape == 'tuple':
+            zero = hl.tuple([z0, hl.int32(0)])
+        else:
+            zero = z0
+        calls = [0]
+
+        def f(acc, x):
+            calls[0] += 1
+            a = acc.s if shape == 'struct' else acc[0] if shape == 'tuple' else acc
+            w = ctor[wt](1) if aux % 2 else (0.5 if wt == 'f64' else ctor[wt](1))
+            if bkind == 'acc+x':
+                r = a + x
+            elif bkind == 'x+acc':
+                r = x + a
+            elif bkind == 'acc*x':
+                r = a * x
+            elif bkind == 'x':
+                r = x
+            elif bkind == 'if':
+                r = hl.if_else(x > a, a + x, a)
+            elif bkind == 'max':
+                r = hl.max(a, x)
+            elif bkind == 'coalesce':
+                r = hl.coalesce(a + x, a)
+            elif bkind == 'prog':
+                pp = list(pool) + [a, x]
+                self.run(spec.get('ops', []), pp, depth + 1)
+                c = [e for e in pp if _tcode(hl, e.dtype) in WIDTH and WIDTH[_tcode(hl, e.dtype)] > WIDTH[zt]]
+                r = c[-1 - (int(spec.get('ret', 0)) % len(c))] if c else a + w
+                if not need_const and aux % 2:
+                    r = r + a
+            else:       # 'acc+wide'
+                r = a + w if aux % 4 < 2 else w * a
+            if shape == 'struct':
+                return hl.struct(s=r, n=acc.n + one)
+            if shape == 'tuple':
+                return hl.tuple([r, acc[1] + one])
+            return r
+        what = f'{api}(f[{bkind}], zero {zt} {shape}, {"scan" if scan else "fold"} over {et} from {csrc})'
+        STATS['wfold_tried'] += 1
+        try:
+            if api == 'hl.fold':
+                e = hl.fold(f, zero, coll)
+            elif api == 'hl.array_scan':
+                e = hl.array_scan(f, zero, coll)
+            else:
+                c = coll if isinstance(coll, hl.expr.Expression) else hl.array(coll)
+                e = c.scan(f, zero) if scan else c.fold(f, zero)
+        except Exception as ex:
+            if _rejection(ex) and not isinstance(ex, hailenv.EngineNeeded):
+                self.classes.add(f'wfold_refused_by_frontend_{shape}')
+            raise
+        STATS['wfold_built'] += 1
+        zd = zero.dtype if isinstance(zero, hl.expr.Expression) else hl.tint32
+        rd = e.dtype.element_type if scan else e.dtype
+        self.classes.add('wfold_built')
+        self.classes.add(f'wfold_api_{api}')
+        self.classes.add(f'wfold_accumulator_{shape}')
+        self.classes.add(f'wfold_body_{bkind}')
+        self.classes.add(f'wfold_zero_from_{zsrc}')
+        self.classes.add(f'wfold_collection_{"set" if isinstance(getattr(coll, "dtype", None), hl.tset) else "pylist" if isinstance(coll, list) else "array"}')
+        if rd != zd:
+            self.classes.add('fold_accumulator_widened')
+            self.classes.add(f'wfold_widened_{zt}_to_{_tcode(hl, rd) or shape}')
+        if calls[0] >= 2:
+            self.classes.add('wfold_lambda_run_twice')
+        x = e._ir
+        if self.v is not None and not (x.free_vars or x.free_agg_vars or x.free_scan_vars):
+            STATS['wfold_checked_at_construction'] += 1
+            check_expr(e, Env({}, None, None), self.v, what)
+        return e
 
     # ---- mixed numeric members (see Mixer)
     def _numeric_only(self, what, mx, build):
@@ -1217,6 +1358,9 @@ class ExprBuilder(c35.ApiBuilder):
 #     (Apply contains () Boolean <array<T>> <U>), which no registered signature accepts: the item takes the element type.
 
 TCODES = ('i32', 'i64', 'f32', 'f64', 'b')
+WIDTH = {'i32': 0, 'i64': 1, 'f32': 2, 'f64': 3}        # numeric promotion order of the front end
+WFOLD_APIS = ['hl.fold', 'hl.fold', 'coll.fold', 'hl.array_scan', 'arr.scan']
+WFOLD_BODIES = ['acc+x', 'acc+x', 'x+acc', 'acc*x', 'x', 'acc+wide', 'if', 'max', 'coalesce', 'prog', 'prog']
 _RANK = {'b': 0, 'i32': 1, 'i64': 2, 'f32': 3, 'f64': 4}
 _GROUP_MARK = {'L': 'list', 'S': 'set', 'Dk': 'dict_keys', 'Dv': 'dict_values'}
 CL_MIX = ('a Python container or argument list whose members are all numeric or boolean (hail expressions of any primitive '
@@ -1578,14 +1722,16 @@ def run_case(case):
     if any(c.startswith('outside_grammar') for c in classes):
         classes.add('outside_grammar')
     nontrivial = bool(classes & {'promotion', 'division', 'keyed_operation', 'nested_struct_update',
-                                 'mixed_numeric_exprs_in_container', 'unifier_mixed_numeric_exprs'})
+                                 'mixed_numeric_exprs_in_container', 'unifier_mixed_numeric_exprs',
+                                 'fold_accumulator_widened'})
     STATS['skipped_ops'] += p.skipped + p.b.st['skipped']
     STATS['ops'] += p.b.st['ops'] + p.steps_done
     STATS['rejected'] += p.b.st['rejected']
     return nontrivial, sorted(classes), v.fails
 
 
-STATS = {'skipped_ops': 0, 'ops': 0, 'rejected': 0, 'nodes_compared': 0, 'refs_compared': 0, 'mix_built': 0,
+STATS = {'wfold_tried': 0, 'wfold_built': 0, 'wfold_checked_at_construction': 0,
+         'skipped_ops': 0, 'ops': 0, 'rejected': 0, 'nodes_compared': 0, 'refs_compared': 0, 'mix_built': 0,
          'mix_checked_at_construction': 0, 'numpy_scalars_replaced_by_guard': 0, 'numpy_bools_replaced': 0,
          'array_contains_items_retyped': 0}
 
@@ -1926,6 +2072,12 @@ def _strategies():
         st.tuples(st.just('mix'), st.tuples(st.sampled_from(['L', 'L', 'S']), num, cnt), leaves, st.integers(0, 19), aux),
         st.tuples(st.just('uni'), st.sampled_from(UNI_FNS), leaves, aux))
 
+    def wfold_op(body):
+        return st.tuples(st.just('wfold'), st.sampled_from(WFOLD_APIS), st.sampled_from(['i32', 'i32', 'i32', 'i64', 'f32']),
+                         st.sampled_from(['i32', 'i64', 'f32', 'f64', 'f64']), st.sampled_from(['expr', 'expr', 'py', 'pool']),
+                         st.sampled_from(['fresh_array', 'fresh_array', 'fresh_set', 'pylist', 'pool', 'pool']),
+                         st.sampled_from(WFOLD_BODIES), st.sampled_from(['scalar'] * 4 + ['struct', 'tuple']), body, aux)
+
     def ops(depth, lo, hi):
         body = st.deferred(lambda: st.fixed_dictionaries({'ops': ops(depth + 1, 1, 4), 'ret': st.sampled_from([0, 0, 1, 2])}))
         numeric = st.one_of(
@@ -1966,6 +2118,7 @@ def _strategies():
                 st.tuples(st.just('map'), idx, body), st.tuples(st.just('filter'), idx, body),
                 st.tuples(st.just('flatmap'), idx, body), st.tuples(st.just('fold'), idx, idx, body),
                 st.tuples(st.just('bind'), st.tuples(idx, idx), body), st.tuples(st.just('sorted'), idx, body),
+                wfold_op(body),
             ))
         return st.lists(st.one_of(*alts), min_size=lo, max_size=hi)
 
@@ -2026,7 +2179,22 @@ def _strategies():
         st.integers(0, 4), st.integers(0, 3), st.sampled_from(['annotate_entries', 'annotate_rows', 'annotate_cols']),
         ops(1, 0, 3), mixops, salt)
     mix_case = st.one_of(mix_expr, mix_expr, mix_table, mix_table, mix_matrix)
-    return dict(lit=lit_case, expr=expr_case, table=table_case, matrix=matrix_case, mix=mix_case)
+    # the 'fold' shards: widening folds / scans last, so that they ARE the outputs (closed, over row fields, over entry fields)
+    leaf_body = st.fixed_dictionaries({'ops': ops(2, 0, 3), 'ret': st.sampled_from([0, 0, 1, 2])})
+    foldops = st.lists(wfold_op(leaf_body), min_size=1, max_size=3)
+    fold_expr = st.builds(lambda pre, fs: {'kind': 'expr', 'lits': [], 'ops': pre + fs, 'roots': list(range(len(fs)))},
+                          ops(1, 0, 4), foldops)
+    fold_table = st.builds(
+        lambda n, pre, fs, sa, more: {'kind': 'table', 'n': n,
+                                      'steps': [['annotate', {'ops': pre + fs}, len(fs), sa]] + more},
+        st.integers(0, 6), ops(1, 0, 3), foldops, st.sampled_from([0, 1, 3, 4, 6]), st.lists(tstep, max_size=1))
+    fold_matrix = st.builds(
+        lambda r, c, which, pre, fs, sa: {'kind': 'matrix', 'r': r, 'c': c,
+                                          'steps': [[which, {'ops': pre + fs}, len(fs), sa]]},
+        st.integers(0, 4), st.integers(0, 3), st.sampled_from(['annotate_entries', 'annotate_rows', 'annotate_cols']),
+        ops(1, 0, 3), foldops, salt)
+    fold_case = st.one_of(fold_expr, fold_expr, fold_table, fold_matrix)
+    return dict(lit=lit_case, expr=expr_case, table=table_case, matrix=matrix_case, mix=mix_case, fold=fold_case)
 
 
 def _jsonable(case):
@@ -2065,6 +2233,7 @@ def plan(tier):
     specs += [dict(kind='table', n=200 if q else 2000) for _ in range(5)]
     specs += [dict(kind='matrix', n=160 if q else 1500) for _ in range(3)]
     specs += [dict(kind='mix', n=300 if q else 3000) for _ in range(2)]
+    specs += [dict(kind='fold', n=250 if q else 2500) for _ in range(2)]
     return specs
 
 
@@ -2084,6 +2253,8 @@ def run_shard(spec, seed, tier):
     res.skipped_ops = STATS['skipped_ops']
     res.notes.update({'ops_applied': STATS['ops'], 'ops_rejected_by_frontend': STATS['rejected'],
                       'ir_nodes_compared': STATS['nodes_compared'], 'refs_compared': STATS['refs_compared'],
+                      'widening_folds_tried': STATS['wfold_tried'], 'widening_folds_built': STATS['wfold_built'],
+                      'widening_folds_checked_on_their_own': STATS['wfold_checked_at_construction'],
                       'mixed_numeric_constructions': STATS['mix_built'],
                       'mixed_numeric_constructions_checked_on_their_own': STATS['mix_checked_at_construction'],
                       'numpy_scalars_replaced_by_guard': STATS['numpy_scalars_replaced_by_guard'],
